@@ -14,7 +14,7 @@ from ..vlib import apalache, build, tlc, util
 from ..vlib.report import MachineryError, Report
 
 util.ensure_repo_importable()
-from strengths import RDGridSpace, RDNetwork, RDScript, RDSystem, Species, UnitArray, UnitsSystem  # noqa: E402
+from strengths import RDGridSpace, RDNetwork, RDScript, RDSystem, Species, UnitArray, UnitValue, UnitsSystem  # noqa: E402
 from strengths import kinetics  # noqa: E402
 from strengths.coarsegrain import grid_to_graph  # noqa: E402
 
@@ -278,7 +278,8 @@ def engine_checks(rep, grids):
 
 
 def _equiv(args):
-    m, steps, kin = args
+    m, steps, kin = args[:3]
+    us = args[3] if len(args) > 3 else None
     r, wr = os.pipe()
     pid = os.fork()
     if pid == 0:
@@ -288,7 +289,11 @@ def _equiv(args):
             gg = RDSystem(network=sg.network, space=grid_to_graph(sg.space), state=sg.state, chemostats=sg.chemostats)
             out = {}
             for name, system in (("grid", sg), ("graph", gg)):
-                script = RDScript(system=system, t_sample=[0.0], t_max=-1.0, time_step=1.0 / 512, sampling_policy="no_sampling")
+                # (every other pair is run with the script in units that are not the system's: whatever the graph route hands
+                #  to the engine - node volumes, surfaces, distances - must be converted as on the grid route)
+                kw = {"units_system": UnitsSystem(space=us[0], time=us[1], quantity=us[2])} if us else {}
+                script = RDScript(system=system, t_sample=[UnitValue(0.0, "s")], t_max=UnitValue(-1.0, "s"), time_step=UnitValue(1.0 / 512, "s"),
+                                  sampling_policy="no_sampling", **kw)
                 eng = build.make_engine("euler", lib=_lib)
                 eng.setup(script)
                 eng.iterate_n(steps)
@@ -318,19 +323,20 @@ def equivalence_checks(rep, rng, n, steps):
         g = m.space
         # python kinetics resolve one edge per pair: only compare them when no periodic axis is shorter than 3
         kin = all((not p) or s >= 3 for p, s in zip(g["bc"], (g["w"], g["h"], g["d"])))
-        jobs.append((m, steps, kin))
+        us = [None, ("nm", "ms", "molecule"), None, ("mm", "s", "nmol"), None, ("dm", "min", "molecule")][len(jobs) % 6]
+        jobs.append((m, steps, kin, us))
     ctx = mp.get_context("fork")
     with ctx.Pool(util.NCPU, initializer=_init) as pool:
         res = pool.map(_equiv, jobs, chunksize=2)
-    for (m, _, kin), r in zip(jobs, res):
-        rep.case(["equiv", m.key()])
+    for (m, _, kin, us), r in zip(jobs, res):
+        rep.case(["equiv", m.key(), us])
         if r[0] != "ok":
             rep.violation("equivalence", "geometry:equivalence-run-" + r[0], {"model": m.strengths_dict(), "info": list(r)})
             continue
         o = r[1]
         a, b = np.array(o["grid"]), np.array(o["graph"])
         if not np.allclose(a, b, rtol=1e-9, atol=1e-12):
-            rep.violation("equivalence", "geometry:euler-grid-vs-graph", {"model": m.strengths_dict(), "grid": o["grid"], "graph": o["graph"]})
+            rep.violation("equivalence", "geometry:euler-grid-vs-graph", {"model": m.strengths_dict(), "script_units": us, "grid": o["grid"], "graph": o["graph"]})
         if kin and not np.allclose(o["kgrid"], o["kgraph"], rtol=1e-9, atol=1e-12):
             rep.violation("equivalence", "geometry:kinetics-grid-vs-graph", {"model": m.strengths_dict(), "grid": o["kgrid"], "graph": o["kgraph"]})
 
